@@ -130,11 +130,26 @@ def gen_value(rnd, depth=0):
     return out or [Comp('IDENT', 'auto')]
 
 
-def gen_decls(rnd, lo=0, hi=4, names=None):
+def gen_decls(rnd, lo=0, hi=4, names=None, distinct=False, atrules=True):
+    """declarations (name, components, important); an entry whose name starts with '@' is an unknown at-rule inside the
+    block (name, text after the keyword, block text or None): kept by the parser as an item of the block, no declaration"""
     out = []
+    pool = list(names or NAMES)
     for _ in range(rnd.randint(lo, hi)):
-        out.append((rnd.choice(names or NAMES), gen_value(rnd), rnd.random() < 0.2))
+        if distinct and not pool:
+            break
+        n = rnd.choice(pool)
+        if distinct:
+            pool.remove(n)
+        out.append((n, gen_value(rnd), rnd.random() < 0.2))
+    if atrules and out and rnd.random() < 0.12:
+        at = (rnd.choice(['@foo', '@x-y']), rnd.choice(['bar', 'a 1 "s"']), rnd.choice([None, None, 'k: v']))
+        out.insert(rnd.randint(0, len(out)), at)
     return out
+
+
+def is_at(d):
+    return d[0].startswith('@')
 
 
 def gen_rule(rnd, depth=0, in_media=False):
@@ -147,8 +162,15 @@ def gen_rule(rnd, depth=0, in_media=False):
         return ('media', mq, [gen_rule(rnd, depth + 1, True) for _ in range(rnd.randint(1, 3))])
     if k == 'page':
         sel = rnd.choice(['', ':first', ':left', 'toc'])
-        margins = [(m, gen_decls(rnd, 1, 2)) for m in rnd.sample(['@top-left', '@bottom-center'], rnd.randint(0, 2))]
-        return ('page', sel, gen_decls(rnd, 1, 3, ['margin', 'size', 'top']), margins)
+        # margin boxes: some or all of them may hold nothing (they are then not written)
+        mode = rnd.choice(['full', 'full', 'full', 'some-empty', 'all-empty'])
+        margins = [(m, gen_decls(rnd, 0 if mode == 'all-empty' or (mode == 'some-empty' and rnd.random() < 0.5) else 1,
+                                 0 if mode == 'all-empty' else 2, atrules=False))
+                   for m in rnd.sample(['@top-left', '@bottom-center'], rnd.randint(0, 2))]
+        if margins and mode != 'all-empty' and rnd.random() < 0.25:
+            # the same box once more (the parser merges them); distinct names, so that the merged block is its list
+            margins.append((rnd.choice(margins)[0], gen_decls(rnd, 1, 2, ['content', 'width', 'color'], distinct=True, atrules=False)))
+        return ('page', sel, gen_decls(rnd, 0 if margins and rnd.random() < 0.15 else 1, 3, ['margin', 'size', 'top'], atrules=False), margins)
     if k == 'fontface':
         if in_media:
             return gen_rule(rnd, depth, in_media)
@@ -177,7 +199,28 @@ def gen_sheet(rnd):
         rules.append(gen_rule(rnd))
     if not any(r[0] == 'namespace' and r[1] == 'p' for r in rules):
         rules = [strip_ns(r) for r in rules]
+    else:
+        # a prefix is case-sensitive and is looked up as written
+        pfx = rnd.choice(['p', 'p', 'SVG', 'xLink', 'P'])
+        if pfx != 'p':
+            rules = [rename_prefix(r, 'p', pfx) for r in rules]
     return rules
+
+
+def rename_prefix(rule, old, new):
+    def simple(s):
+        if s[0] in ('type', 'univ', 'attr') and s[1] == old:
+            return (s[0], new) + tuple(s[2:])
+        if s[0] == 'not':
+            return ('not', simple(s[1]))
+        return s
+    if rule[0] == 'namespace' and rule[1] == old:
+        return ('namespace', new, rule[2])
+    if rule[0] == 'style':
+        return ('style', [[(c, [simple(x) for x in comp]) for c, comp in sel] for sel in rule[1]], rule[2])
+    if rule[0] == 'media':
+        return ('media', rule[1], [rename_prefix(r, old, new) for r in rule[2]])
+    return rule
 
 
 def strip_ns(rule):
@@ -379,14 +422,17 @@ def render_value(comps, lay, sp):
 def render_decls(decls, lay, sp):
     parts = []
     for name, val, imp in decls:
+        if name.startswith('@'):
+            parts.append(name + ' ' + val + (' { ' + imp + ' }' if imp else ''))
+            continue
         t = sp.name(name) + lay.ws() + ':' + lay.ws() + render_value(val, lay, sp)
         if imp:
             t += lay.ws() + '!' + lay.ws() + sp.keyword('important')
         parts.append(t)
     sep = lay.ws() + ';' + lay.ws()
     text = sep.join(parts)
-    if parts and lay.rnd is not None and lay.rnd.random() < 0.5:
-        text += lay.ws() + ';'
+    if parts and ((lay.rnd is not None and lay.rnd.random() < 0.5) or (decls[-1][0].startswith('@') and not decls[-1][2])):
+        text += lay.ws() + ';'          # (an at-rule without a block needs its own ';')
     return text
 
 
@@ -638,6 +684,29 @@ def rule_model(r, comments=True):
     return ('other', t)
 
 
+def prune(models):
+    """the model without what holds nothing (empty blocks are not written unless keepEmptyRules is set)"""
+    out = []
+    for m in models:
+        k = m[0]
+        if k == 'style' and not m[2]:
+            continue
+        if k == 'fontface' and not m[1]:
+            continue
+        if k == 'media':
+            kids = prune(m[2])
+            if not kids:
+                continue
+            m = ('media', m[1], kids)
+        if k == 'page':
+            margins = [x for x in m[3] if x[1]]
+            if not m[2] and not margins:
+                continue
+            m = ('page', m[1], m[2], margins)
+        out.append(m)
+    return out
+
+
 def sheet_model(sheet, comments=True):
     return [m for m in (rule_model(r, comments) for r in sheet.cssRules) if m is not None]
 
@@ -653,7 +722,21 @@ def expected_kind(c):
 
 
 def expected_decls(decls):
-    return [(n, [expected_kind(c) for c in v if c.kind != 'SEP'], 'important' if imp else '') for n, v, imp in decls]
+    return [(n, [expected_kind(c) for c in v if c.kind != 'SEP'], 'important' if imp else '') for n, v, imp in decls
+            if not n.startswith('@')]
+
+
+def merged_margins(margins):
+    """a margin box stated twice is one box holding the declarations of both, in order"""
+    out = []
+    for m, d in margins:
+        for i, (m2, d2) in enumerate(out):
+            if m2 == m:
+                out[i] = (m, d2 + d)
+                break
+        else:
+            out.append((m, list(d)))
+    return out
 
 
 def expected_shape(rules):
@@ -667,7 +750,7 @@ def expected_shape(rules):
         elif k == 'media':
             out.append(('media', list(r[1]), expected_shape(r[2])))
         elif k == 'page':
-            out.append(('page', r[1], expected_decls(r[2]), [(m, expected_decls(d)) for m, d in r[3]]))
+            out.append(('page', r[1], expected_decls(r[2]), [(m, expected_decls(d)) for m, d in merged_margins(r[3])]))
         elif k == 'fontface':
             out.append(('fontface', expected_decls(r[1])))
         elif k == 'import':
